@@ -1,4 +1,5 @@
 import Whawty.Model.Policy
+import Whawty.Model.Utf8
 import Driver.Proto
 namespace Whawty.PolCmd
 open Whawty Whawty.Proto Whawty.Policy
@@ -19,6 +20,12 @@ def predict (cmd : List String) : Option String :=
       let z : Estimate := ⟨← score.toNat?, ← ent.toNat?, ← tm.toNat?⟩
       let (r, _) := guardedWrite p z () (if (← pBool storeOk) then some () else none)
       pure (if r.isSome then "stored" else "refused")
+  -- Go's own string functions against the model (strings.Fields, utf8.DecodeRuneInString, unicode.IsSpace)
+  | ["go.fields", sx] => do pure (sList (fields (← pBytes sx)))
+  | ["go.decoderune", sx] => do
+    let (r, w) := Utf8.decodeRune (← pBytes sx)
+    pure s!"{r} {w}"
+  | ["go.isspace", r] => do pure (sBool (Utf8.isSpaceRune (← r.toNat?)))
   | _ => none
 
 end Whawty.PolCmd
